@@ -55,6 +55,112 @@ type treeIn struct {
 	T  node `json:"t"`
 }
 
+// editIn: swap the elements I and J of the caller's slice, or (Set != nil) overwrite element I
+type editIn struct {
+	I   int  `json:"i"`
+	J   int  `json:"j"`
+	Set *mem `json:"set,omitempty"`
+}
+
+// aliasObs: what a roster shows after the caller edited the slice it was built from
+type aliasObs struct {
+	ID      string `json:"id"`
+	GetID   string `json:"getid"`
+	Members []mem  `json:"members"`
+	Search  []int  `json:"search"` // for every ORIGINAL member: where Search finds it (-1: not found)
+}
+
+func keyIDOfPoint(in *input, p kyber.Point) int {
+	if p == nil {
+		return -1
+	}
+	var buf bytes.Buffer
+	if _, err := p.MarshalTo(&buf); err != nil {
+		return -2
+	}
+	h := hex.EncodeToString(buf.Bytes())
+	found := -2 // a key that occurs nowhere in the input
+	each := func(k int) {
+		if k >= 0 && hex.EncodeToString(getKey(k).bin) == h {
+			found = k
+		}
+	}
+	for _, r := range in.Rosters {
+		for _, m := range r {
+			each(m.K)
+			for _, s := range m.S {
+				each(s)
+			}
+		}
+	}
+	for _, es := range in.Edits {
+		for _, e := range es {
+			if e.Set != nil {
+				each(e.Set.K)
+				for _, s := range e.Set.S {
+					each(s)
+				}
+			}
+		}
+	}
+	return found
+}
+
+func observeAlias(in *input, i int) (o aliasObs) {
+	ms := in.Rosters[i]
+	o = aliasObs{ID: "crash", GetID: "crash"}
+	defer func() {
+		if r := recover(); r != nil {
+			o.ID = "crash"
+		}
+	}()
+	sis := mkIdentities(ms)
+	ro := onet.NewRoster(sis)
+	if ro == nil {
+		o.ID, o.GetID = "nil", "nil"
+		return
+	}
+	orig := make([]network.ServerIdentityID, len(sis))
+	for p, si := range sis {
+		orig[p] = si.ID
+	}
+	// the caller goes on using ITS slice
+	if i < len(in.Edits) {
+		for _, e := range in.Edits[i] {
+			if e.Set != nil {
+				sis[e.I] = mkIdentity(*e.Set, 100+e.I)
+			} else {
+				sis[e.I], sis[e.J] = sis[e.J], sis[e.I]
+			}
+		}
+	}
+	o.ID = hex.EncodeToString(ro.ID[:])
+	o.GetID = catch(func() string {
+		id, err := ro.GetID()
+		if err != nil {
+			return "err"
+		}
+		return hex.EncodeToString(id[:])
+	})
+	for _, si := range ro.List {
+		m := mem{K: keyIDOfPoint(in, si.Public)}
+		for _, s := range si.ServiceIdentities {
+			m.S = append(m.S, keyIDOfPoint(in, s.Public))
+		}
+		o.Members = append(o.Members, m)
+	}
+	for _, id := range orig {
+		idx, _ := ro.Search(id)
+		o.Search = append(o.Search, idx)
+	}
+	return
+}
+
+func aliasJSON(in *input, i int) string {
+	b, _ := json.Marshal(observeAlias(in, i))
+	return string(b)
+}
+
 type deriv struct {
 	From int    `json:"from"`
 	How  string `json:"how,omitempty"` // "" literal | clone | copy | changenode | clone-first (clone before the first ID())
@@ -70,6 +176,9 @@ type input struct {
 	// or derived the way real code does it -- ID() is called on token From, the token is
 	// cloned / copied, the fields are set to Tokens[i], and ID() is called on the result.
 	Derive []deriv `json:"derive,omitempty"`
+	// kind "alias": Edits[i] is what the caller does to the slice it gave to NewRoster
+	// for Rosters[i], AFTER NewRoster returned
+	Edits [][]editIn `json:"edits,omitempty"`
 	Names   []string    `json:"names,omitempty"`  // hex
 	Keys    []int       `json:"keys,omitempty"`
 }
@@ -435,6 +544,10 @@ func firstIDs(in *input) []string {
 		for _, k := range in.Keys {
 			out = append(out, nodeID(k))
 		}
+	case "alias":
+		for i := range in.Rosters {
+			out = append(out, aliasJSON(in, i))
+		}
 	default:
 		panic("unknown kind " + in.Kind)
 	}
@@ -641,6 +754,9 @@ func (kt *keyTab) finish() {
 }
 
 func (kt *keyTab) ref(id int) string {
+	if id == -2 {
+		return "(Some 99999)" // a key that is none of the input's: no table entry, the case does not decode
+	}
 	if id < 0 {
 		return "None"
 	}
@@ -717,6 +833,16 @@ func run(raw json.RawMessage) lib.Case {
 	for _, k := range in.Keys {
 		kt.add(k)
 	}
+	for _, es := range in.Edits {
+		for _, e := range es {
+			if e.Set != nil {
+				kt.add(e.Set.K)
+				for _, s := range e.Set.S {
+					kt.add(s)
+				}
+			}
+		}
+	}
 	kt.finish()
 
 	items := make([]string, n)
@@ -788,6 +914,38 @@ func run(raw json.RawMessage) lib.Case {
 			unstable = unstable || !allSame(runs)
 			items[i] = "(" + kt.ref(k) + ", " + coqObs(runs, nil, o) + ")"
 		}
+	case "alias":
+		for i, r := range in.Rosters {
+			o := rosterOracle(r)
+			var obsC []string
+			for _, js := range []string{first[i], aliasJSON(&in, i), fresh[i]} {
+				var a aliasObs
+				if err := json.Unmarshal([]byte(js), &a); err != nil {
+					a = aliasObs{ID: "err", GetID: "err"} // the fresh process died
+				}
+				srch := make([]string, len(a.Search))
+				for p, x := range a.Search {
+					srch[p] = lib.OptNat(x >= 0, x)
+				}
+				obsC = append(obsC, fmt.Sprintf("(AObs %s %s %s %s %s %s)", coqRes(a.ID), coqRes(a.GetID),
+					coqRoster(kt, a.Members), lib.List(srch), coqPairs(o.h256), coqPairs(o.u)))
+			}
+			var eds []string
+			if i < len(in.Edits) {
+				for _, e := range in.Edits[i] {
+					if e.Set != nil {
+						sv := make([]string, len(e.Set.S))
+						for j, x := range e.Set.S {
+							sv[j] = kt.ref(x)
+						}
+						eds = append(eds, fmt.Sprintf("(ISet %d (%s, %s))", e.I, kt.ref(e.Set.K), lib.List(sv)))
+					} else {
+						eds = append(eds, fmt.Sprintf("(ISwap %d %d)", e.I, e.J))
+					}
+				}
+			}
+			items[i] = "((" + coqRoster(kt, r) + ", " + lib.List(eds) + "), " + lib.List(obsC) + ")"
+		}
 	}
 	var coq string
 	body := "[\n    " + strings.Join(items, ";\n    ") + "]"
@@ -806,6 +964,8 @@ func run(raw json.RawMessage) lib.Case {
 		coq = "CKeys 0 " + kt.coq() + " " + body
 	case "nodes":
 		coq = "CKeys 1 " + kt.coq() + " " + body
+	case "alias":
+		coq = "CAlias " + kt.coq() + " " + body
 	}
 	distinct := map[string]bool{}
 	bad := 0
@@ -823,7 +983,23 @@ func run(raw json.RawMessage) lib.Case {
 	c := lib.Case{Coq: coq, Class: in.Kind + "-" + in.Label, Obs: o, Nontrivial: n > 1}
 	// A group in which two different objects share an id (or two equal objects do
 	// not) is reported with the two objects alone as its replay input.
-	if i, j, ok := offendingPair(&in, first); ok && !unstable {
+	if in.Kind == "alias" {
+		// a roster that did not survive the caller's edits is replayed alone
+		for i := range in.Rosters {
+			var a aliasObs
+			json.Unmarshal([]byte(first[i]), &a)
+			want, _ := json.Marshal(in.Rosters[i])
+			got, _ := json.Marshal(a.Members)
+			if a.ID != a.GetID || string(want) != string(got) {
+				sub := input{Kind: in.Kind, Label: in.Label, Rosters: [][]mem{in.Rosters[i]}}
+				if i < len(in.Edits) {
+					sub.Edits = [][]editIn{in.Edits[i]}
+				}
+				c.Input = sub
+				break
+			}
+		}
+	} else if i, j, ok := offendingPair(&in, first); ok && !unstable {
 		c.Input = subGroup(&in, i, j)
 		o.Pair = []string{objectKey(&in, i), objectKey(&in, j), first[i], first[j]}
 		c.Obs = o
